@@ -205,6 +205,100 @@ def realnet_census(chk, quick):
     return cases, descs
 
 
+def pool_generate(num, seed):
+    import shutil
+    import tempfile
+    from harness import tlaval
+    tmp = tempfile.mkdtemp(prefix='pool-gen-')
+    try:
+        r = tlc.run('Pool', cfg_text='SPECIFICATION Spec\nCONSTANTS\n Addr = {"a", "b"}\n MAXC = 3\n UNAMBIG = TRUE\nCHECK_DEADLOCK FALSE\n', workers=1, timeout=300,
+                    simulate='file=%s/b,num=%d' % (tmp, num), depth=14, seed=seed)
+        if r.status != 'ok':
+            raise MachineryError('pool behaviour generation failed:\n' + r.brief())
+        out, seen = [], set()
+        for _f, b in tlaval.behaviours(tmp + '/b'):
+            steps, prev = [], b[0][2]
+
+            def P(state, k):
+                pl = state['pool']
+                return pl[k - 1] if isinstance(pl, (tuple, list)) else pl[k]
+            for act, _p, st in b[1:]:
+                a, c = '', 0
+                if act == 'Acquire':
+                    newc = [k for k in st['known'] if k not in prev['known']]
+                    c = newc[0] if newc else [k for k in st['known'] if P(st, k)['st'] != P(prev, k)['st']][0]
+                    a = P(st, c)['addr']
+                elif act in ('Retain',):
+                    c = [k for k in st['known'] if P(st, k)['st'] != P(prev, k)['st']][0]
+                elif act == 'Release':
+                    c = [k for k in prev['known'] if k not in st['known']][0]
+                elif act == 'PeerEnds':
+                    c = [k for k in st['readable'] if k not in prev['readable']][0]
+                steps.append((act, a, c))
+                prev = st
+            key = tuple(steps)
+            if key in seen or not steps:
+                continue
+            seen.add(key)
+            out.append(steps)
+        return out, r
+    finally:
+        shutil.rmtree(tmp, ignore_errors=True)
+
+
+def pool_execute(steps):
+    """One behaviour on the REAL UpstreamConnectionPool over SimNet sockets.  The model's connection ids are creation order; which
+    reusable connection the real pool hands out is observed (and bound in the trace specification)."""
+    from harness import simdrive
+    from proxy.core.connection import UpstreamConnectionPool
+    sim = simdrive.Sim(args=[])
+    pool = UpstreamConnectionPool()
+    conns = []          # created TcpServerConnection objects, in creation order (real index = position + 1)
+    m2r = {}            # model connection id -> real index.  Which of several reusable connections to one address is handed out is
+                        # the pool's choice (set iteration order); the model's ids are renamed accordingly (they are symmetric)
+    out = []
+    loop = simdrive.shared_loop()
+
+    def r2m(r):
+        for m, x in m2r.items():
+            if x == r:
+                return m
+        return 100 + r
+
+    for act, a, c in steps:
+        exc = ''
+        obs_c = c
+        try:
+            if act == 'Acquire':
+                created, conn = pool.acquire((a + '.example', 80))
+                if created:
+                    conns.append(conn)
+                    m2r.setdefault(c, len(conns))
+                    obs_c = r2m(len(conns))
+                else:
+                    obs_c = r2m(conns.index(conn) + 1)
+            elif act == 'Retain':
+                pool.retain(conns[m2r[c] - 1])
+            elif act == 'Release':
+                pool.release(conns[m2r[c] - 1])
+            elif act == 'PeerEnds':
+                sim.upstreams[m2r[c] - 1].close()
+            elif act == 'Sweep':
+                ev = loop.run_until_complete(pool.get_events())
+                ready = [fd for fd in ev if sim.world.fds.get(fd) is not None and sim.world.fds[fd].readable()]
+                loop.run_until_complete(pool.handle_events(ready, []))
+        except Exception as e:     # noqa
+            exc = type(e).__name__ + ': ' + str(e)[:80]
+        known = sorted(r2m(conns.index(x) + 1) for x in pool.connections.values() if x in conns)
+        inpools = sorted(r2m(conns.index(x) + 1) for s_ in pool.pools.values() for x in s_ if x in conns)
+        out.append({'act': act, 'a': a, 'c': obs_c, 'obs': {'exc': exc if known == inpools else (exc or 'pool tables disagree: connections %s, pools %s' % (known, inpools)),
+                                                         'known': known, 'inuse': sorted(r2m(i + 1) for i, x in enumerate(conns) if r2m(i + 1) in known and not x.is_reusable()),
+                                                         'closed': sorted(r2m(i + 1) for i, x in enumerate(conns) if x.closed)}})
+        if exc:
+            break
+    return out
+
+
 def to_events(log):
     out = []
     for e in log:
@@ -243,6 +337,23 @@ def run(chk):
         cid = len(cases) + 1
         cases.append({'id': cid, 'ev': to_events(log), 'census': census, 'growth': growth})
         descs[cid] = {'history': desc, 'role': role, 'loop_alive': alive, 'loop_error': err}
+    # ---- the upstream connection pool (not anchored in a listed property; part of "what is opened is closed") -------------------
+    r = tlc.run('Pool', 'Pool.cfg', workers=8, timeout=300)
+    chk.add_tlc('Pool (acquire / retain / release / sweep, exhaustive)', r, exhaustive=True)
+    chk.require_ok('Pool', r)
+    behs, g = pool_generate(1500 if quick else 12000, chk.seed * 7 + 3)
+    chk.add_tlc('Pool -simulate', g)
+    ptraces = [{'id': n + 1, 'steps': pool_execute(b)} for n, b in enumerate(behs)]
+    presults, prej = tlc.run_sharded('TracePool', 'TracePool.cfg', ptraces, shards=16, timeout=600)
+    pm = tlc.Merged(presults)
+    chk.add_tlc('TracePool (%d executions of the real UpstreamConnectionPool)' % len(ptraces), pm)
+    if pm.status == 'failed' or any(x.status == 'violated' for x in presults):
+        raise MachineryError('TracePool: ' + (pm.brief() if pm.status == 'failed' else [x for x in presults if x.status == 'violated'][0].brief()))
+    chk.traces(len(ptraces))
+    for tid, rest in prej:
+        idx, clause = rest.split('|', 1)
+        acts = [(s_['act'], s_['a'], s_['c']) for s_ in ptraces[tid - 1]['steps'][:int(idx)]]
+        chk.violation({'kind': 'connection pool', 'clause': clause.split(' after ')[0][:60]}, 'pool history %s: %s' % (acts, clause), {'steps': ptraces[tid - 1]['steps'][:int(idx)]})
     rcases, rdescs = realnet_census(chk, quick)
     cases += rcases
     descs.update(rdescs)
